@@ -84,6 +84,55 @@ def verify_contract(eng, prover, pid, base, fi, contract, st, args, kwargs=None,
     return n
 
 
+def check_lifted_map(eng, prover, pid, cname, role, rootkind, out):
+    """[L-MAP] discharged: the lifted `_from_base` contract used at the comprehensions of the constructors / extend is
+    proved against the comprehension's explicit loop (contracts/lang_models.py) from the per-element contract."""
+    from contracts import lang_models, tree as T
+    from pyvc.smt import VInt
+    from pyvc import builtins_spec as bs
+    fns = lang_models.functions(eng)
+    contract = eng.contracts["SyncedCollection._from_base.map"]
+    for kind, fname in (("list", "_comp_list"), ("dict", "_comp_dict")):
+        s = scn.make_scene(eng, cname, role, rootkind)
+        st = s.st
+        fam = scn.family(eng, s.cls)
+        api.type_facts(eng, st, set([s.cls, s.rootcls, fam[0], fam[1]]))
+        fi = fns[fname]
+        t = smt.fresh("arg_xs")
+        st.assume(z3.Not(smt.is_VRef(t)))
+        xs = Z(t, None, {"plain": True})
+        if kind == "dict":
+            from contracts.core import is_mapping
+            st.assume(is_mapping(t))
+
+        def pointwise(c, r, xsv, kind=kind):
+            spec, L = c.post.ghost["map_loop"]
+            post = c.post
+            if kind == "list":
+                j0 = L.sk["j0"]
+                return [("lifted:length", bs.list_len(r) == bs.list_len(xsv)),
+                        ("lifted:element-is-leaf-or-fresh-family-node",
+                         z3.Implies(z3.And(j0 >= 0, j0 < bs.list_len(xsv)),
+                                    spec.item_ok(L, post, bs.list_get(r, VInt(j0)), bs.list_get(xsv, VInt(j0)))))]
+            k0 = L.sk["k0"]
+            return [("lifted:keys", bs.dict_has(r, k0) == bs.dict_has(xsv, k0)),
+                    ("lifted:element-is-leaf-or-fresh-family-node",
+                     z3.Implies(bs.dict_has(xsv, k0), spec.item_ok(L, post, bs.dict_get(r, k0), bs.dict_get(xsv, k0))))]
+        st.ghost["map_pointwise"] = pointwise
+        r_ = task_role(role, rootkind)
+        base = f"{cname}.{fname}@lang_models.{fname}/{r_}"
+        kwargs = {"$kind": Const("dict")} if kind == "dict" else {}
+        try:
+            n = verify_contract(eng, prover, pid, base, fi, contract, st, [s.self_, xs, s.self_])
+            out["paths"] += n
+        except Unsupported as e:
+            out["unsupported"].append({"instance": f"{cname}.{fname}/{role}", "reason": str(e)})
+
+
+def task_role(role, rootkind):
+    return role if role == "root" else f"nested-in-{rootkind}"
+
+
 DEF_FUNCS = {
     # function name -> (receiver roles, needs root)
     "_validate": ("any",),
@@ -103,6 +152,8 @@ NOT_YET = {}     # (kind -> function names whose definition obligations are not 
 def run_task(eng, prover, task, out):
     pid = task["props"][0]
     P = eng.P
+    if "_from_base" in task["functions"]:
+        check_lifted_map(eng, prover, pid, task["cname"], task["role"], task["rootkind"], out)
     jobs = [(f, False) for f in task["functions"]]
     if eng.R["classes"][task["cname"]]["isa"].get("BufferedCollection"):
         # the buffered cases of _load / _save (C05): a second run from a state in buffered mode
